@@ -10,6 +10,7 @@ import Mathlib.Tactic.NormNum
 -/
 namespace DtsVerif.C05
 open DtsVerif.Propagate DtsVerif.Theory
+open scoped Matrix
 
 /-! ## The derivative dictionary is the derivative of the temperature equation (over ℝ) -/
 
@@ -78,15 +79,14 @@ theorem C05_single_is_propagation (J : Derivs K) (x vst vast : K) (c : Covs K) :
   simp
   ring
 
-/-- the six parameter groups of `tmpw`: `(γ, df, db, α, τF, τB)`; `atf, atb, tftb` are the three covariances the code's
-list does not use -/
-def cov6 (c : CovsW K) (atf atb tftb : K) : Matrix (Fin 6) (Fin 6) K :=
+/-- the six parameter groups of `tmpw`: `(γ, df, db, α, τF, τB)` with all fifteen cross-covariances -/
+def cov6 (c : CovsW K) : Matrix (Fin 6) (Fin 6) K :=
   !![c.gg, c.gf, c.gb, c.ga, c.gtf, c.gtb;
      c.gf, c.ff, c.fb, c.fa, c.ftf, c.ftb;
      c.gb, c.fb, c.bb, c.ba, c.btf, c.btb;
-     c.ga, c.fa, c.ba, c.aa, atf, atb;
-     c.gtf, c.ftf, c.btf, atf, c.tff, tftb;
-     c.gtb, c.ftb, c.btb, atb, tftb, c.tbb]
+     c.ga, c.fa, c.ba, c.aa, c.atf, c.atb;
+     c.gtf, c.ftf, c.btf, c.atf, c.tff, c.tftb;
+     c.gtb, c.ftb, c.btb, c.atb, c.tftb, c.tbb]
 
 def jacW (wf wb : K) (F B : Derivs K) : Fin 6 → K :=
   ![wf * F.g + wb * B.g, wf * F.d, wb * B.d, wf * F.a + wb * B.a, wf * F.ta, wb * B.ta]
@@ -94,60 +94,95 @@ def jacW (wf wb : K) (F B : Derivs K) : Fin 6 → K :=
 theorem sum_univ_six (f : Fin 6 → K) : ∑ i, f i = f 0 + f 1 + f 2 + f 3 + f 4 + f 5 := by
   simp [Fin.sum_univ_succ]; ring
 
-/-- **C05 (tmpw_var), exact accounting.** The code's 22 terms plus the three cross terms it leaves out
-(`α–τF`, `α–τB`, `τF–τB`) are the full first-order propagation with constant weights. -/
-theorem C05_tmpw_accounting (wf wb : K) (F B : Derivs K) (vst vast vrst vrast : K) (c : CovsW K) (atf atb tftb : K) :
+/-- **C05 (tmpw_var is the full propagation).** The 25 terms the code adds are the squared sensitivities to the four
+measurements times their variances plus `Jᵀ Σ J` over the six parameter groups with all fifteen cross-covariances
+(since the repair recorded as `fixed: C05-tmpw-cross-terms`; before it the `α–τF`, `α–τB`, `τF–τB` terms were absent). -/
+theorem C05_tmpw_is_propagation (wf wb : K) (F B : Derivs K) (vst vast vrst vrast : K) (c : CovsW K) :
     (termsW wf wb F B vst vast vrst vrast c).sum
-      + 2 * (jacW wf wb F B 3) * (jacW wf wb F B 4) * atf
-      + 2 * (jacW wf wb F B 3) * (jacW wf wb F B 5) * atb
-      + 2 * (jacW wf wb F B 4) * (jacW wf wb F B 5) * tftb
     = (wf * F.st) ^ 2 * vst + (wf * F.ast) ^ 2 * vast + (wb * B.st) ^ 2 * vrst + (wb * B.ast) ^ 2 * vrast
-      + quad (jacW wf wb F B) (cov6 c atf atb tftb) := by
+      + quad (jacW wf wb F B) (cov6 c) := by
   simp only [termsW, List.sum_cons, List.sum_nil, quad, jacW, cov6, sum_univ_six,
     Matrix.of_apply, Matrix.cons_val', Matrix.cons_val_zero, Matrix.cons_val_one, Matrix.head_cons,
     Matrix.empty_val', Matrix.cons_val_fin_one]
   simp
   ring
 
-/-- **C05 (tmpw_var), partial.** Without splices (or whenever the three unused covariances vanish) the reported
-`tmpw_var` IS the full propagation. -/
-theorem C05_tmpw_is_propagation_partial (wf wb : K) (F B : Derivs K) (vst vast vrst vrast : K) (c : CovsW K) :
-    (termsW wf wb F B vst vast vrst vrast c).sum
-    = (wf * F.st) ^ 2 * vst + (wf * F.ast) ^ 2 * vast + (wb * B.st) ^ 2 * vrst + (wb * B.ast) ^ 2 * vrast
-      + quad (jacW wf wb F B) (cov6 c 0 0 0) := by
-  have := C05_tmpw_accounting wf wb F B vst vast vrst vrast c 0 0 0
-  simpa using this
+/-- the statement is sensitive to each of the three cross terms: dropping the `α–τF` term changes the sum whenever that
+covariance and both sensitivities are non-zero (regression guard for the repaired defect) -/
+theorem C05_tmpw_cross_term_needed :
+    ∃ (wf wb : ℚ) (F B : Derivs ℚ) (c : CovsW ℚ),
+      ((termsW wf wb F B 0 0 0 0 c).take 22).sum ≠ quad (jacW wf wb F B) (cov6 c) := by
+  refine ⟨1, 0, ⟨0, 0, 0, 0, 1, 1⟩, ⟨0, 0, 0, 0, 0, 0⟩,
+    { gg := 0, ff := 0, bb := 0, aa := 1, tff := 1, tbb := 0, gf := 0, gb := 0, ga := 0, gtf := 0, gtb := 0, fb := 0,
+      fa := 0, ftf := 0, ftb := 0, ba := 0, btf := 0, btb := 0, atf := 1, atb := 0, tftb := 0 }, ?_⟩
+  intro heq
+  have h := C05_tmpw_is_propagation (1 : ℚ) 0 ⟨0, 0, 0, 0, 1, 1⟩ ⟨0, 0, 0, 0, 0, 0⟩ 0 0 0 0
+    { gg := 0, ff := 0, bb := 0, aa := 1, tff := 1, tbb := 0, gf := 0, gb := 0, ga := 0, gtf := 0, gtb := 0, fb := 0,
+      fa := 0, ftf := 0, ftb := 0, ba := 0, btf := 0, btb := 0, atf := 1, atb := 0, tftb := 0 }
+  rw [← heq] at h
+  norm_num [termsW] at h
 
-/-- the full statement for `tmpw_var` -/
-def TmpwIsPropagation : Prop :=
-  ∀ (wf wb : ℚ) (F B : Derivs ℚ) (vst vast vrst vrast : ℚ) (c : CovsW ℚ) (atf atb tftb : ℚ),
-    (termsW wf wb F B vst vast vrst vrast c).sum
-    = (wf * F.st) ^ 2 * vst + (wf * F.ast) ^ 2 * vast + (wb * B.st) ^ 2 * vrst + (wb * B.ast) ^ 2 * vrast
-      + quad (jacW wf wb F B) (cov6 c atf atb tftb)
+/-! ## Several splices acting on one location: the variance of their summed loss -/
 
-/-- **Refutation (known finding C05-tmpw-cross-terms).** With a non-zero covariance between `α` and a forward splice loss
-the reported `tmpw_var` differs from the propagation. -/
-theorem C05_tmpw_is_propagation_refuted : ¬ TmpwIsPropagation := by
-  intro h
-  have h1 := h 1 0 ⟨0, 0, 0, 0, 1, 1⟩ ⟨0, 0, 0, 0, 0, 0⟩ 0 0 0 0 ⟨0, 0, 0, 0, 0, 0, 0, 0, 0, 0, 0, 0, 0, 0, 0, 0, 0, 0⟩ 1 0 0
-  have h2 := C05_tmpw_accounting (1 : ℚ) 0 ⟨0, 0, 0, 0, 1, 1⟩ ⟨0, 0, 0, 0, 0, 0⟩ 0 0 0 0
-    ⟨0, 0, 0, 0, 0, 0, 0, 0, 0, 0, 0, 0, 0, 0, 0, 0, 0, 0⟩ 1 0 0
-  rw [← h2] at h1
-  norm_num [jacW] at h1
-  rcases h1 with h | h
-  · have : (![0, 0, 0, 1, 1, 0] : Fin 6 → ℚ) 3 = 1 := rfl
-    rw [this] at h; norm_num at h
-  · have : (![0, 0, 0, 1, 1, 0] : Fin 6 → ℚ) 4 = 1 := rfl
-    rw [this] at h; norm_num at h
+theorem quad_eq_dot {n : Nat} (J : Fin n → K) (S : Matrix (Fin n) (Fin n) K) : quad J S = J ⬝ᵥ (S *ᵥ J) := by
+  simp only [quad, dotProduct, Matrix.mulVec, Finset.mul_sum, mul_assoc]
 
-/-- the variance of the sum of two splice losses that both act on a location -/
-def varOfSum2 (v₁ v₂ c₁₂ : K) : K := v₁ + v₂ + 2 * c₁₂
+/-- **Grouping.** Propagating through the individual parameters with sensitivities `J ᵥ* G` (each row of `G` says which
+individual parameters a group sums) is the propagation through the groups with the grouped covariance `G Σ Gᵀ`. -/
+theorem quad_group {m n : Nat} (G : Matrix (Fin m) (Fin n) K) (J : Fin m → K) (S : Matrix (Fin n) (Fin n) K) :
+    quad (J ᵥ* G) S = quad J (G * S * G.transpose) := by
+  rw [quad_eq_dot, quad_eq_dot, ← Matrix.mulVec_mulVec, ← Matrix.mulVec_mulVec, Matrix.mulVec_transpose]
+  simp only [Matrix.dotProduct_mulVec]
 
-/-- **Refutation (known finding C05-two-splice-covariance).** The code takes `Σ var(τ_a)` for the variance of the summed
-splice losses; with two splices upstream of a location this misses `2·cov(τ₁, τ₂)`. -/
-theorem C05_two_splices_refuted : ¬ ∀ v₁ v₂ c₁₂ : ℚ, v₁ + v₂ = varOfSum2 v₁ v₂ c₁₂ := by
-  intro h; have := h 1 1 1; norm_num [varOfSum2] at this
+/-- entry of the grouped covariance: the sum over ALL pairs of members of the two groups -/
+theorem group_cov_entry {m n : Nat} (G : Matrix (Fin m) (Fin n) K) (S : Matrix (Fin n) (Fin n) K) (r r' : Fin m) :
+    (G * S * G.transpose) r r' = ∑ a, ∑ b, G r a * S a b * G r' b := by
+  simp only [Matrix.mul_apply, Matrix.transpose_apply, Finset.sum_mul]
+  rw [Finset.sum_comm]
 
-theorem C05_two_splices_partial (v₁ v₂ : K) : v₁ + v₂ = varOfSum2 v₁ v₂ 0 := by simp [varOfSum2]
+/-- the model's sum over the acting splices is the indicator-weighted sum -/
+theorem upstreamSum_eq (inp : Calib.Input) (i : Nat) (f : Nat → Rat) (down : Bool) :
+    Calib.upstreamSum inp i f down
+      = ((List.range inp.nta).map fun a =>
+          if (decide (inp.xAt i ≥ inp.trans.getD a 0)) == down then f a else 0).sum := by
+  unfold Calib.upstreamSum
+  suffices h : ∀ (l : List Nat) (acc : Rat),
+      l.foldl (fun acc a => if (decide (inp.xAt i ≥ inp.trans.getD a 0)) == down then acc + f a else acc) acc
+        = acc + (l.map fun a => if (decide (inp.xAt i ≥ inp.trans.getD a 0)) == down then f a else 0).sum by
+    simpa using h (List.range inp.nta) 0
+  intro l
+  induction l with
+  | nil => intro acc; simp
+  | cons a l ih =>
+    intro acc
+    simp only [List.foldl_cons, List.map_cons, List.sum_cons]
+    rw [ih]
+    split <;> ring
+
+/-- **C05 (two or more splices).** The (co)variance the model — and, by the correspondence, the code's
+`splice_loss_covariance` — assigns to the summed losses is the sum of `cov(τ_a, τ_b)` over all pairs of splices acting on
+the location, i.e. the grouped-covariance entry of `group_cov_entry` (since the repair recorded as
+`fixed: C05-two-splice-covariance`; before it only the `a = b` terms were added). -/
+theorem C05_splice_pairs (inp : Calib.Input) (i : Nat) (dA dB : Bool) (f : Nat → Nat → Rat) :
+    overSplicePairs inp i dA dB f
+      = ((List.range inp.nta).map fun a => ((List.range inp.nta).map fun b =>
+          (if (decide (inp.xAt i ≥ inp.trans.getD a 0)) == dA then (1 : Rat) else 0)
+          * (if (decide (inp.xAt i ≥ inp.trans.getD b 0)) == dB then (1 : Rat) else 0) * f a b).sum).sum := by
+  unfold overSplicePairs overSplices
+  rw [upstreamSum_eq]
+  congr 1
+  apply List.map_congr_left
+  intro a _
+  rw [upstreamSum_eq]
+  split
+  · congr 1
+    apply List.map_congr_left
+    intro b _
+    split <;> simp
+  · simp
+
+/-- the diagonal-only sum the code used before the repair is NOT the variance of a sum (regression guard) -/
+theorem C05_two_splices_diagonal_insufficient : ¬ ∀ v₁ v₂ c₁₂ : ℚ, v₁ + v₂ = v₁ + v₂ + 2 * c₁₂ := by
+  intro h; have := h 1 1 1; norm_num at this
 
 end DtsVerif.C05
